@@ -731,15 +731,13 @@ def check_sinks(ctx, rule):
         summ = dict(X.DEFAULT_SUMMARIES)
         rec = []
         summ['paper_wallet.PaperWallet.export_to_file'] = lambda ev_, fi, env, facts: (rec.append(dict(env)) or T.NONE, facts)
-        summ['paper_wallet.PaperWallet.json'] = lambda ev_, fi, env, facts: (T.raw_op('JSONCALL', *[env[q] for q in fi.params]), facts)
         summ['paper_wallet.PaperWallet.generate'] = lambda ev_, fi, env, facts: (T.raw_op('GENERATE', *[env[q] for q in fi.params]), facts)
-        T.STR_OPS.add('JSONCALL')
         data, path = S('data', type='dict'), S('path', type='str')
         w = S('wallet', cls=PW)
         nonempty = Facts().add(T.truth(data))
         e2 = Evaluator(p, 'ecdsa', summaries=summ)
         e2.call_function('paper_wallet.PaperWallet.export_wallet', [w], {'file_path': path, 'data': data}, facts=nonempty)
-        ok = len(rec) == 1 and rec[0].get('file_path') == path and rec[0].get('contents') == T.raw_op('JSONCALL', w, data, T.const(4))
+        ok = len(rec) == 1 and rec[0].get('file_path') == path and rec[0].get('contents') == T.raw_op('JSON', data, T.const(4))
         ob.require(ok, 'export_wallet(file_path, data=d) must write json(data=d, indent=4) to file_path (the data it is given, '
                    'not a freshly generated wallet)', fexp.where,
                    found=[{k: T.show(v, maxdepth=3) for k, v in r.items()} for r in rec])
@@ -749,7 +747,7 @@ def check_sinks(ctx, rule):
         writes = [e for e in e3.effects if e[0] == 'stream-write' and e[3].startswith('sys.stdout')]
         # what reaches standard output, in order, is the JSON of the data (then, at most, the line terminator)
         text = T.cat(*[x for e in writes for x in e[4]]) if writes else None
-        js = T.raw_op('JSONCALL', w, data, T.const(4))
+        js = T.raw_op('JSON', data, T.const(4))
         ok = bool(writes) and (text == js or text == T.cat(js, X.ext_value('os.linesep')) or text == T.cat(js, T.const('\n')))
         ob.require(ok, 'pprint(data=d) must write json(data=d, indent=4) to standard output', fpp.where,
                    found=[tuple(T.show(x, maxdepth=3) for x in e[4]) for e in writes])
